@@ -76,3 +76,31 @@ def unknown_frame(rng, nbytes=None) -> bytes:
         nbytes = rng.choice((2, 3, 4, 8, 20, 60, 255, 256, 257, 511, 512, 513, 1023, rng.randrange(2, 1024)))
     no = rng.choice(UNASSIGNED)
     return wire.rtcm_frame(wire.rtcm_payload(no, rng.getrandbits(max(1, nbytes * 8 - 12)), nbytes))
+
+
+def undefined_numbers():
+    """message numbers without a payload definition in the pinned corpus'
+    identity list (stubs): includes reserved numbers inside the MSM block"""
+    if "undef" not in _cache:
+        defined = {int(i[:4]) for i in synth_by_identity()}
+        _cache["undef"] = tuple(n for n in range(4096) if n not in defined)
+        _cache["igs_undef"] = tuple(s for s in range(256) if f"4076_{s:03d}" not in synth_by_identity())
+    return _cache["undef"]
+
+
+def stub_payload(rng):
+    """payload of a message type that has no definition: any undefined number
+    (with emphasis on the neighbourhood of defined families) or an
+    unimplemented 4076 sub-type"""
+    nbytes = rng.choice((2, 3, 4, 8, 20, 60, 200))
+    if rng.random() < 0.35:
+        undefined_numbers()
+        sub = rng.choice(_cache["igs_undef"])
+        nbytes = max(3, nbytes)
+        body = rng.getrandbits(nbytes * 8 - 23)
+        val = (((4076 << 3) | rng.randrange(8)) << 8 | sub) << (nbytes * 8 - 23) | body
+        return val.to_bytes(nbytes, "big")
+    und = undefined_numbers()
+    near = [n for n in und if 1000 <= n <= 1320 or 4000 <= n <= 4095]
+    no = rng.choice(near) if rng.random() < 0.7 else rng.choice(und)
+    return wire.rtcm_payload(no, rng.getrandbits(max(1, nbytes * 8 - 12)), nbytes)
